@@ -185,6 +185,9 @@ def gen_case(rng, tier_big=False, raw=False, bad_range=False, vanish=False):
             d = [rnd_entry(rng, 0.1) for _ in range(ns[top])]
         if rng.random() < (0.03 if vmode != 0 else 0.7):
             d = [Fr(0)] * ns[top]
+        if rng.random() < (0.12 if cgc != 0 else 0.03):
+            # guard boundary: tiny but non-zero denominators (quadratic in the defect) must still give the minimiser
+            d = [x / 2 ** rng.choice([30, 100, 200]) for x in d]
         if bad_range and k == napp - 1:
             kind = rng.randrange(5)
             if kind == 0:
@@ -527,6 +530,82 @@ def double_oracle(case, out):
     return None
 
 
+HOMOG = {"scalings_compared_bitwise": 0, "scalings_skipped_out_of_range": 0,
+         "reference_compared": 0, "reference_skipped_unstable": 0}
+SCALES = [0, -10, -20, -30, -40, -60, 10, 20, 30, 40, 60]
+
+
+def homog_oracle(case, out):
+    """double stream tied to C09.textbook_homogeneous / C09.omega_scale_invariant: scaling the defect by 2^k commutes
+    exactly with every IEEE operation (no under-/overflow at these magnitudes), and the adaptive step lengths are
+    ratios, so FEAT at double must satisfy MG(2^k d) = 2^k MG(d) BIT FOR BIT for all cycles and correction modes;
+    additionally FEAT is compared with the independent C++ recursion at double on the same scaled defects whenever
+    that recursion is numerically stable on the case (agrees with the exact recursion to 1e-6)."""
+    import math
+    if is_abnormal(out):
+        return "double run ended with " + out[:100]
+    try:
+        op, ns, levels, apps = parse_case(case)
+        t = out.split()
+        p = 0
+
+        def vec(tag):
+            nonlocal p
+            assert t[p] == tag, (tag, t[p])
+            n = int(t[p + 1])
+            v = t[p + 2:p + 2 + n]
+            p += 2 + n
+            return v
+
+        for a in range(len(apps)):
+            assert t[p] == "APP"
+            p += 1
+            q = [float.fromhex(h) for h in vec("Q")]
+            blocks = []
+            for k in SCALES:
+                assert t[p] == "K" and int(t[p + 1]) == k
+                p += 1
+                xs = vec(str(k))
+                rs = vec("R")
+                ws = vec("W")
+                blocks.append((k, xs, rs, ws))
+            x0 = [float.fromhex(h) for h in blocks[0][1]]
+            if any(math.isnan(v) or math.isinf(v) for v in x0):
+                return "application %d (double): non-finite vec_cor" % a
+            mags = [abs(v) for v in x0 if v != 0]
+            in_range = (not mags) or (max(mags) < 1e60 and min(mags) > 1e-60)
+            for (k, xs, rs, ws) in blocks[1:]:
+                xk = [float.fromhex(h) for h in xs]
+                if in_range:
+                    HOMOG["scalings_compared_bitwise"] += 1
+                    for i, (u, v) in enumerate(zip(xk, x0)):
+                        if not (u == math.ldexp(v, k)):
+                            return ("application %d (cycle %s, cgc %d): MG(2^%d d)[%d] = %s but 2^%d MG(d)[%d] = %s - the "
+                                    "cycle is not homogeneous at double (reference step lengths at this scale: %s)" % (
+                                        a, "VFW"[apps[a][0]], apps[a][1], k, i, xs[i], k, i,
+                                        float.hex(math.ldexp(v, k)), " ".join(ws[:6])))
+                else:
+                    HOMOG["scalings_skipped_out_of_range"] += 1
+            for (k, xs, rs, ws) in blocks:
+                xk = [float.fromhex(h) for h in xs]
+                rk = [float.fromhex(h) for h in rs]
+                qk = [math.ldexp(v, k) for v in q]
+                sc = max([abs(v) for v in qk] + [0.0])
+                if len(qk) == len(rk) and sc > 0 and all(math.isfinite(v) for v in rk) and \
+                        max(abs(u - v) for u, v in zip(rk, qk)) <= 1e-6 * sc:
+                    HOMOG["reference_compared"] += 1
+                    if not all(math.isfinite(v) for v in xk) or max(abs(u - v) for u, v in zip(xk, rk)) > 1e-6 * sc:
+                        return ("application %d (cycle %s, cgc %d), defect scaled by 2^%d: FEAT %s differs from the "
+                                "independent recursion at double %s (its step lengths: %s)" % (
+                                    a, "VFW"[apps[a][0]], apps[a][1], k, " ".join(xs[:4]), " ".join(rs[:4]),
+                                    " ".join(ws[:6])))
+                else:
+                    HOMOG["reference_skipped_unstable"] += 1
+    except (AssertionError, IndexError, ValueError) as e:
+        return "unparsable mgh output (%s): %s" % (e, out[:160])
+    return None
+
+
 def oracle(case, out):
     try:
         op, ns, levels, apps = parse_case(case)
@@ -665,6 +744,8 @@ def describe(case):
         keys.append("coarse-solver:%s" % ("present" if levels[rg[1]]["s"][3] else "absent"))
         if all(x == 0 for x in d):
             keys.append("defect:zero")
+        elif max(abs(x) for x in d) < Fr(1, 2 ** 25):
+            keys.append("defect:tiny(<2^-25)")
     for lev in levels[:-1]:
         keys.append("slots(pre,post,peak):%s" % "".join("1" if m else "0" for m in lev["s"][:3]))
     if any(lev["f"] for lev in levels):
@@ -701,7 +782,7 @@ def main(argv):
         if cases[0].startswith("rate"):
             rate_cases, cases = cases, []
     else:
-        cases = CORPUS + enum_control_cases() + gen_cases(rng, 6000 if args.tier == "quick" else 80000)
+        cases = CORPUS + enum_control_cases() + gen_cases(rng, 4500 if args.tier == "quick" else 80000)
         if args.tier == "thorough":
             rate_cases = ["rate %d %d %d" % (nl, cyc, cgc) for cyc in range(3) for cgc in range(3) for nl in range(2, 9)]
             rate_cases += ["rate2d %d %d %d" % (nl, cyc, cgc) for cyc in range(3) for cgc in range(3) for nl in range(2, 8)]
@@ -714,7 +795,7 @@ def main(argv):
                                    nontrivial=nontrivial, describe=describe, signature=signature, canon=canon))
     refc = []
     if not args.replay:
-        lim = 2500 if args.tier == "quick" else 30000
+        lim = 1500 if args.tier == "quick" else 30000
         for c in enum_control_cases() + cases:
             if len(refc) >= lim:
                 break
@@ -728,6 +809,27 @@ def main(argv):
     if refc:
         streams.append(vlib.Stream("reference", refc, [binary], vlib.driver_cmd(PROP), oracle=oracle,
                                    nontrivial=nontrivial, describe=describe, signature=signature, canon=canon))
+    hom = []
+    if not args.replay:
+        lim = 450 if args.tier == "quick" else 6000
+        for c in cases:
+            if len(hom) >= lim:
+                break
+            if c.startswith("mg "):
+                op, ns, levels, apps = parse_case(c)
+                if not all(level_range(len(ns), a[2], a[3]) for a in apps):
+                    continue
+                if any(all(x == 0 for x in a[4]) or max(abs(x) for x in a[4]) < Fr(1, 2 ** 25) for a in apps):
+                    continue  # the scaled copies are produced by the harness from O(1) defects
+                # every correction mode on the same hierarchy / cycles / ranges
+                for cg in range(3):
+                    hom.append(fmt_case("mgh", ns, levels, [(a[0], cg, a[2], a[3], a[4]) for a in apps]))
+    elif cases and cases[0].startswith("mgh"):
+        hom, cases = cases, []
+        streams = []
+    if hom:
+        streams.append(vlib.Stream("double-homogeneity", hom, [binary], None, oracle=homog_oracle,
+                                   nontrivial=nontrivial, describe=describe, signature=signature))
     dbl = []
     if not args.replay:
         dbl = ["mgd " + F_C09_1_V, "mgd " + F_C09_1_W]
@@ -768,7 +870,7 @@ def main(argv):
         "mock smoothers/coarse solvers are fixed linear operators (matrices); their status is always success",
         "single process: size_physical = size_virtual, no ghost transfer",
         "level-independent convergence rate is measured at double (thorough tier), not proved"],
-        extra_cov={"rule": stats_rule, "measured_contraction_numbers": RATES, "vanishing_cgc_denominator_events": VANISHING,
+        extra_cov={"rule": stats_rule, "measured_contraction_numbers": RATES, "vanishing_cgc_denominator_events": VANISHING, "double_homogeneity": HOMOG,
                    "measured_only": "worst defect reduction per cycle over 8 cycles on nested 1D P1 Poisson problems (3..511 "
                                     "unknowns, 2..8 levels) and on 2-D 5-point Poisson problems (1..127^2 unknowns, 2..7 "
                                     "levels, bilinear transfer), 2 damped Jacobi steps pre/post, exact coarse solve, all "
